@@ -1677,7 +1677,7 @@ pub fn run(pc: &PropCtx) {
 
     // 2. generated fault sequences
     SHRINK_BUDGET_S.store(pc.tier.pick(20, 240), Ordering::Relaxed);
-    let trees = pc.tier.pick(1_500, 24_000);
+    let trees = pc.tier.pick(2_500, 24_000);
     pc.run_tape("fault_sequences", trees, (128, 500), gen_case, |c| check_tape(Some(pc), c));
     if let Some((case, detail)) = HANG_FOUND.lock().unwrap().take() {
         if !pc.has_failure() {
